@@ -790,6 +790,16 @@ def run(chk: Check) -> int:
     chk.prove(["theories/Props/C16.vo", "theories/Run/AvgRun.vo"], THEOREMS,
               allowed_axioms=frozenset(STD_AXIOMS_OK | PRIMS | {"Axioms"}))  # core's parser also yields the header word "Axioms"
     quick = chk.quick
+    by_sig: dict[str, int] = {}
+    raw_fail = chk.fail
+
+    def fail_limited(signature, what, rep):
+        # keep at most two inputs per signature so that the replay file shows every kind of failure
+        by_sig[signature] = by_sig.get(signature, 0) + 1
+        if by_sig[signature] <= 2:
+            raw_fail(signature, what, rep)
+
+    chk.fail = fail_limited
     guard, dedup = probe_guard(), probe_dedup()
     chk.log(f"implementation probes: F11 repaired={guard}  F13 repaired={dedup}")
 
@@ -863,7 +873,7 @@ def run(chk: Check) -> int:
         chk.broke("correspondence", f"Model/Avg.v vs AverageLearner: case {m['origin']} step {s}",
                   {"kind": "avg", "cfg": m["cfg"], "ops": m["ops"][:s + 1]})
     chk.log(f"AverageLearner: {len(cases)} cases, {len(mism)} mismatches, {reached} reach min_npoints; "
-            f"oracle failures so far {len(chk.failures)}")
+            f"oracle failures so far {sum(by_sig.values())}")
     navg, mis_a = len(cases), len(mism)
 
     # ------------------------------------------------------------ AverageLearner1D
@@ -952,7 +962,7 @@ def run(chk: Check) -> int:
         chk.broke("correspondence", f"Model/Avg1D.v vs AverageLearner1D: case {m['origin']} step {s}",
                   {"kind": "avg1d", "cfg": m["cfg"], "ops": m["ops"][:s + 1]})
     chk.log(f"AverageLearner1D: {len(cases1)} cases, {len(mism1)} mismatches, {legal1} legal; "
-            f"oracle failures {len(chk.failures)}")
+            f"oracle failures {sum(by_sig.values())}")
 
     chk.extra.update({
         "avg_cases_compared_in_coq": navg, "avg_mismatches": mis_a, "avg_cases_reaching_min_npoints_per_coq": reached,
@@ -960,6 +970,7 @@ def run(chk: Check) -> int:
         "avg1d_cases_compared_in_coq": len(cases1), "avg1d_mismatches": len(mism1),
         "avg1d_legal_histories_per_coq": legal1, "avg1d_op_histogram": hist1, "avg1d_stats": st1,
         "implementation_probes": {"F11_repaired": guard, "F13_repaired": dedup},
+        "oracle_failures_by_signature": by_sig,
         "reading_note": "undersampled-first is checked in the weaker reading: while some evaluated abscissa has fewer "
                         "than min_samples samples every request goes to an evaluated abscissa of _undersampled_points "
                         "(asks_to_short_abscissa / asks_while_short says how often the chosen one itself was short)",
